@@ -1,5 +1,5 @@
 CONSTANT CS = {"gps","galileo","glonass"}
-CONSTANT Horizon = 90
+CONSTANT Horizon = 64
 CONSTANT FirstNotBeforeT = TRUE
 CONSTANT SwLose = FALSE
 CONSTANT SwGal = FALSE
